@@ -55,6 +55,28 @@ def delivery_table(ctx, rule):
     ctx.floor(rule, "first-class signals in to_nix", n, 7)
 
 
+def status_signal_table(ctx, rule):
+    """Signal::from(i32), used to report the signal that ended a process: first-class numbers map to their signal, the rest to Custom (shared with C09)"""
+    facts = ctx.facts
+    h = ctx.anchor_one(rule, "<Signal as From<i32>>::from", [x for x in facts.fns_matching(r"watchexec_signals::Signal as core::convert::From<i32>>::from$")])
+    m3 = the_match(ctx, rule, h)
+    n_ok = 0
+    inv = {v: k for k, v in POSIX.items()}
+    for n in range(0, 65):
+        i = thir.first_arm(m3, ("i", n))
+        if i is None:
+            ctx.incomplete(rule, "status-signal:%d" % n, "undetermined arm", h.loc(m3["l"]))
+            continue
+        v = thir.expr_value(m3["arms"][i]["b"])
+        got = v[2] if v[0] == "v" and v[1] == SIG else None
+        want = inv.get(n, "Custom")
+        n_ok += 1
+        if got != want:
+            ctx.violation(rule, "status-signal:%d" % n, "a process ended by signal %d is reported as %s, expected %s" % (n, got, want), h.loc(m3["arms"][i]["l"]))
+    ctx.floor(rule, "signal numbers decided for Signal::from(i32)", n_ok, 65)
+    ctx.ok(rule, "status-signal-table", "Signal::from(i32) maps 1,2,3,9,10,12,15 to their first-class signals and every other number in 0..=64 to Custom")
+
+
 def run(ctx):
     ctx.level = "proof"
     ctx.exhaustive = True
